@@ -51,14 +51,15 @@ const char *__asan_default_options(void) { return "quarantine_size_mb=16:thread_
 enum { CL_SUB, CL_MP, CL_GEN, CL_FOURCC, CL_FLOWDEF, CL_MARGIN, CL_MARGIN_ODD, CL_ALIGN, CL_ALLOC_REFUSED,
        CL_MAP_REFUSED, CL_MAP_NEG, CL_MAP_SUB, CL_MAP_MISALIGNED, CL_MAP_WRITE, CL_RESIZE_OK, CL_RESIZE_EXT,
        CL_RESIZE_REFUSED, CL_RESIZE_GRAN, CL_CHAIN, CL_COPY, CL_COPY_EXT, CL_DUP, CL_EXT_SHARED, CL_OUTDOM,
-       CL_TWO_MGR, CL_POOL, CL_SIZE_NOT_MULT_OF_ALIGN, CL_DEFAULT_MARGIN };
+       CL_TWO_MGR, CL_POOL, CL_SIZE_NOT_MULT_OF_ALIGN, CL_DEFAULT_MARGIN, CL_CLEAR, CL_CLEAR_SUB, CL_CLEAR_MULTI };
 static const char *const class_names[] = {
     "fmt_subsampled", "fmt_macropixel_gt1", "fmt_generated_planes", "fmt_fourcc_mgr", "mgr_from_flow_def",
     "margins_nonzero", "margins_odd", "align_nonzero", "alloc_not_multiple_refused",
     "map_refused", "map_negative_offset_accepted", "map_subwindow_accepted", "map_misaligned_refused", "map_write_window",
     "resize_accepted", "resize_extension_accepted", "resize_refused", "resize_misaligned_refused",
     "resize_chain_ge2_with_extension", "copy_accepted", "copy_extending", "dup", "extension_on_shared",
-    "out_of_domain_accepted", "two_managers_used", "pool_depth_gt0", "row_not_multiple_of_align", "default_margins", NULL };
+    "out_of_domain_accepted", "two_managers_used", "pool_depth_gt0", "row_not_multiple_of_align", "default_margins",
+    "window_cleared", "clear_of_partial_width_window", "clear_with_multi_octet_pattern", NULL };
 
 struct pl { uint8_t hsub, vsub, mps; char chroma[24]; };
 struct fmt {
@@ -681,6 +682,64 @@ static void op_map(struct ctx *c, bool want_write)
     if (write) verify_all(c, "map", what);
 }
 
+/* ubuf_pic_plane_clear / ubuf_pic_plane_set_color write through a mapped window: what they accept follows the mapping rules, and they
+ * write inside that window only -- every octet of every plane outside it keeps its value (verify_all), nothing outside the
+ * allocation is touched (exact-size areas under ASan). What the window holds afterwards is not judged (unknown in the model). */
+static bool clear_knows(const char *chroma)
+{
+    static const char *const k[] = { "a8", "r8g8b8a8", "b8g8r8a8", "a8r8g8b8", "a8b8g8r8", "y8", "r8g8b8", "b8g8r8", "y16l", "y16b", "u8", "v8", "u8v8",
+                                     "y10l", "u10l", "v10l", "u16l", "v16l", "u16b", "v16b", "u10y10v10y10u10y10v10y10u10y10v10y10", NULL };
+    for (int i = 0; k[i]; i++) if (!strcmp(chroma, k[i])) return true;
+    return false;
+}
+
+static void op_clear(struct ctx *c)
+{
+    struct fmt *f = &c->f;
+    int hi = pick_live(c); if (hi < 0) return;
+    struct hnd *h = &c->h[hi];
+    int p = tp_pick(&c->t, f->np);
+    int g = f->mp * f->pl[p].hsub, gv = f->pl[p].vsub, mps = f->pl[p].mps;
+    int H = h->hm * f->mp, V = h->v;
+    uint8_t mode = tp_u8(&c->t);
+    int hoff = gen_off(c, H, g, f->mp, true);
+    int voff = gen_off(c, V, gv, 1, true);
+    int nh = hoff < 0 ? hoff + H : hoff, nv = voff < 0 ? voff + V : voff;
+    int hs = gen_size(c, H, nh, g, true);
+    int vs = gen_size(c, V, nv, gv, true);
+    if (!single(c, h)) return;                 /* a shared picture is not writable: nothing to clear */
+    int rh = hs == -1 ? H - nh : hs, rv = vs == -1 ? V - nv : vs;
+    bool gran = smod(nh, g) || smod(rh, g) || smod(nv, gv) || smod(rv, gv);
+    const char *why = refusal_reason_map(nh, nv, H, V, rh, rv, gran);
+    if (why || rh <= 0 || rv <= 0) return;     /* the refusals are op_map's business */
+    bool known = clear_knows(f->pl[p].chroma);
+    bool multi = (mode & 1) && mps > 1;
+    uint8_t pattern[16];
+    for (int i = 0; i < 16; i++) pattern[i] = 0xe0 + i;
+    c->hash = vp_hash_mix(c->hash, 0x900 + hi + p * 8 + known * 64 + multi * 128);
+    c->hash = vp_hash_mix(c->hash, ((uint64_t)(uint16_t)hoff << 48) | ((uint64_t)(uint16_t)voff << 32) | ((uint64_t)(uint16_t)hs << 16) | (uint16_t)vs);
+    char what[128];
+    int err;
+    if (known && !(mode & 2)) {
+        snprintf(what, sizeof what, "ubuf_pic_plane_clear(h%d %dx%d,%s,%d,%d,%d,%d,%d)", hi, H, V, f->pl[p].chroma, hoff, voff, hs, vs, (mode >> 2) & 1);
+        err = ubuf_pic_plane_clear(h->u, f->pl[p].chroma, hoff, voff, hs, vs, (mode >> 2) & 1);
+        if (mps > 1) multi = true;             /* (some of its patterns are one octet: not told apart here) */
+    } else {
+        snprintf(what, sizeof what, "ubuf_pic_plane_set_color(h%d %dx%d,%s,%d,%d,%d,%d, pattern of %d)", hi, H, V, f->pl[p].chroma, hoff, voff, hs, vs, multi ? mps : 1);
+        err = ubuf_pic_plane_set_color(h->u, f->pl[p].chroma, hoff, voff, hs, vs, pattern, multi ? mps : 1);
+    }
+    R("  %s -> %d\n", what, err);
+    if (!ubase_check(err)) { FAIL("C19/domain/clear", "%s is refused (error %d) although the window lies inside the picture, respects the granularity %dx%d and the picture has one owner", what, err, g, gv); return; }
+    CL(CL_CLEAR);
+    if (nh + rh < H || nh > 0) CL(CL_CLEAR_SUB);
+    if (multi) CL(CL_CLEAR_MULTI);
+    int x0 = nh / g, y0 = nv / gv, w = rh / g, rows = rv / gv, fw = pw(c, h, p);
+    for (int y = 0; y < rows; y++)
+        for (size_t b = 0; b < (size_t)w * mps; b++)
+            g_known[hi][p][((size_t)(y0 + y) * fw + x0) * mps + b] = 0;
+    verify_all(c, "clear", what);
+}
+
 /* arguments of resize/copy/replace; `lim*`: how far the new window may reach (macropixels/lines) on each side */
 struct rz { int hskip, vskip, nhs, nvs; };
 
@@ -918,8 +977,9 @@ static int run(const uint8_t *tp_, size_t len, struct vp_report *rep, unsigned f
     int nops = 0;
     while (!c->ret && nops < MAXOPS && (!tp_done(&c->t) || nops == 0)) {
         nops++;
-        uint8_t op = tp_u8(&c->t) % 16;
+        uint8_t opb = tp_u8(&c->t), op = opb % 16;
         if (!any_live(c)) op = 0;
+        if (op == 15 && (opb & 0x10)) { op_clear(c); continue; }
         switch (op) {
         case 0: op_alloc(c); break;
         case 1: case 2: case 3: case 4: op_resize(c); break;
